@@ -194,7 +194,7 @@ def replay(v):
             return a.violations, None
         from ..prog import replay_built
         return replay_built(a, v)
-    if v["kind"] == "debug_selection_depends_on_declaration_order":
+    if v["kind"] == "debug_selection_depends_on_declaration_order" or c.get("deferred_setup"):
         from ..acc import Acc
         a = Acc(ID, 0, 1, 600)
         run_case(a, c, MONITORS, nontrivial)  # the oracle compares executor graphs before anything runs
